@@ -105,23 +105,26 @@ SCALARS = [("AStr 1", "plain"), ("AStr 2", ""), ("AStr 3", "true"), ("AStr 4", "
            ("AInt 0", 0), ("AInt 1", 1), ("AInt (-5)", -5), ("AInt 8080", 8080), ("AInt 2000000000", 2000000000), ("AInt 9007199254740992", BIG), ("AInt 9007199254740993", BIG + 1),
            ("AInt (-9007199254740993)", -BIG - 1), ("AInt 12345678901234567890", 12345678901234567890 if False else 1234567890123456789), ("ADec 1", 1.5), ("ADec 2", 0.25)]
 SCALARS[15] = ("AInt 1234567890123456789", 1234567890123456789)
-POSITIONS = [("TString", "env"), ("TString", "variables"), ("TBool", "allow_failure"), ("TDuration", "timeout"), ("(TList TString)", "command"), ("(TList TString)", "depends_on")]
+POSITIONS = [("TString", "env"), ("TString", "variables"), ("TString", "cfgvariables"), ("TBool", "allow_failure"), ("TDuration", "timeout"), ("(TList TString)", "command"), ("(TList TString)", "depends_on")]
 
 
 def scalar_conf(val, pos):
-    t = {"command": ['printf "E=[%s] V=[{{.VX}}]" "$EX"'], "env": {"EX": "dflt"}, "variables": {"VX": "dflt"}}
+    t = {"command": ['printf "E=[%s] V=[{{.VX}}] G=[{{.GX}}]" "$EX"'], "env": {"EX": "dflt"}, "variables": {"VX": "dflt"}}
+    top = {"GX": "dflt"}          # variables at the top level of the file
     st2 = {"task": "t", "name": "s1", "depends_on": ["s0"]}
     if pos == "env":
         t["env"]["EX"] = val
     elif pos == "variables":
         t["variables"]["VX"] = val
+    elif pos == "cfgvariables":
+        top["GX"] = val
     elif pos in ("allow_failure", "timeout"):
         t[pos] = val
     elif pos == "command":
         t["command"] = val
     elif pos == "depends_on":
         st2["depends_on"] = val
-    return {"tasks": {"t": t}, "pipelines": {"p": [{"task": "t", "name": "s0"}, st2]}}
+    return {"variables": top, "tasks": {"t": t}, "pipelines": {"p": [{"task": "t", "name": "s0"}, st2]}}
 
 
 EDGE_RE = re.compile(r"(n\d+)->(n\d+)")
@@ -196,7 +199,7 @@ Print BAD.
 
 def run(ctx):
     res = vlib.Result()
-    res.rule = ("scalars (strings incl. empty / numeric-looking, booleans, integers incl. 2^53 and beyond, decimals) at every typed position (env, variables: string; "
+    res.rule = ("scalars (strings incl. empty / numeric-looking, booleans, integers incl. 2^53 and beyond, decimals) at every typed position (env, task variables, top-level variables: string; "
                 "allow_failure: bool; timeout: duration; command, depends_on: string-or-list): observed agreement yaml=json / json=toml compared with the model's; "
                 "generated configurations over every documented key (string-or-list fields in both forms, durations as string and number, booleans as bool / number / "
                 "string, nested maps, contexts, watchers, nested pipelines): list / show / graph / run of every task and pipeline compared pairwise between the "
